@@ -745,8 +745,9 @@ func newReverseSegmentScannerFromEnd(segment *segment) *reverseSegmentScanner {
 // Returns io.EOF when there are no more messages.
 func (s *reverseSegmentScanner) Scan() (messageSet, *entry, error) {
 	entry, err := s.ris.Scan()
-	if err == ErrSegmentClosed && s.s.IsReplaced() {
-		// The index was closed because the segment was replaced.
+	if err == ErrSegmentClosed && (s.s.IsReplaced() || s.s.IsDeleted()) {
+		// The index was closed because the segment was replaced by
+		// compaction or deleted by retention.
 		err = ErrSegmentReplaced
 	}
 	if err != nil {
